@@ -52,7 +52,7 @@ def yhat(ctx, N):
         return f
 
     for space in ("feature", "sample"):
-        for reg in ("default", "precomputed", "precomputedW", "user", "user-fitted", "user-unfitted"):
+        for reg in ("default", "default+W", "precomputed", "precomputedW", "user", "user-fitted", "user-unfitted"):
             got = {}
 
             def grab(name):
@@ -73,6 +73,9 @@ def yhat(ctx, N):
                 ctor["regressor"] = "precomputed"
                 if reg.endswith("W"):
                     fit_kw["W"] = arr("Wuser", "M", "P")
+            if reg == "default+W":
+                # weights handed to fit although a regressor is in charge: the regression that is used is the regressor's
+                fit_kw["W"] = arr("Wuser", "M", "P")
             if reg.startswith("user"):
                 ctor["regressor"] = extobj("user_regressor", "sklearn.linear_model.Ridge")
             o = ctx.construct(I, st, cls, **ctor)
@@ -119,8 +122,8 @@ def yhat(ctx, N):
                     want = T("lstsq", X.term, Y.term, ("rcond", ctor["tol"].term))
                     ctx.ob("R-YHAT", f"[{cfg}] W = lstsq(X, Yhat, tol)", N.nf(W.term) == N.nf(want), tw[:200], site, cfg)
                 else:
-                    ctx.ob("R-YHAT", f"[{cfg}] W = regressor_.coef_^T", tq.has_attr(W.term, "coef_") and tq.has_op(W.term, "T"), tw[:200], site, cfg)
-                    ctx.shape_is("Shape", f"[{cfg}] W is (n_features, n_targets)", W, ("M", "P"), site, cfg) if reg == "default" else None
+                    ctx.ob("R-YHAT", f"[{cfg}] W = regressor_.coef_^T", tq.has_attr(W.term, "coef_") and tq.has_op(W.term, "T") and not tq.has_sym(W.term, "Wuser"), tw[:200], site, cfg)
+                    ctx.shape_is("Shape", f"[{cfg}] W is (n_features, n_targets)", W, ("M", "P"), site, cfg) if reg in ("default", "default+W") else None
 
 
 def regressors(ctx):
